@@ -160,3 +160,53 @@ def machine_corpus(rep, m, classes, per_type, maxlen, seed):
     return seq_cases, bag_cases
 
 
+
+
+# ---------------------------------------------------------------- twin comparisons (C10, C11)
+def names_of(o, ids):
+    nm = o['nm'] if 'nm' in o else {}
+    return [nm.get(str(i), nm.get(i, '?')) for i in ids]
+
+
+def summary(case, res, name_table=None):
+    """what a user can observe at the end of a history, independent of child ids: outcome class of the last operation,
+    names in both views, and for a final check its verdict"""
+    o = res[-1]
+    op = case['ops'][-1]
+    if name_table is None:
+        name_table = id_names(case, res)
+    ordn = [name_table.get(i, '?') for i in o['ord']] if isinstance(o['ord'], list) else o['ord']
+    unon = [name_table.get(i, '?') for i in o['uno']]
+    s = {'out': hist.outcome_class(o['st']), 'ord': ordn, 'uno': unon}
+    if op[0] == 'f':
+        s['verdict'] = None if o.get('req') is None else ('pass' if o['req'] == [] else 'refuse')
+    return s
+
+
+def id_names(case, res):
+    """name of every child id, derived from the history itself (id = index of the creating operation)"""
+    t = {}
+    for i, op in enumerate(case['ops']):
+        if op[0] in ('a', 'w', 'x'):
+            t[i] = op[1]
+        elif op[0] == 'p':
+            t[i] = op[2]
+        elif op[0] == 'q':
+            prev = res[i - 1]['uno'] if i > 0 else []
+            if op[1] < len(prev):
+                t[i] = t.get(prev[op[1]], '?')
+    return t
+
+
+def probes_for(g, typ, rng, n_sym=3):
+    alpha = rx.alphabet(g['templates'][typ])
+    syms = rng.sample(alpha, min(n_sym, len(alpha)))
+    return [['f', 0]] + [['a', s] for s in syms]
+
+
+def run_both(m, cases):
+    return impl.run_cases(cases), m.run_py(cases)
+
+
+def eq_summary(a, b):
+    return a == b
